@@ -3,8 +3,8 @@ import PySMT.Gen.PendingPop
 /-!
 # Model of `IncrementalTrackingSolver` and of the `pending_pop` protocol (pysmt/solvers/solver.py, decorators.py)
 
-* `Solver.is_sat` (solver.py:91-130, incremental branch): `push()`, `add_assertion(f)`, `solve()`,
-  `pending_pop = True` — or `solve([f])` when `push` is not implemented.  `is_valid f = not is_sat(Not f)`,
+* `Solver.is_sat` (solver.py:91-134, incremental branch): `push()`, `add_assertion(f)`, `solve()`,
+  `pending_pop = True` (set in a `finally`; the native check is assumed not to raise) — or `solve([f])` when `push` is not implemented.  `is_valid f = not is_sat(Not f)`,
   `is_unsat f = not is_sat f` (:132-155).
 * `clear_pending_pop` (decorators.py:48-66): `if self.pending_pop: self.pending_pop = False; self.pop()`,
   then the decorated function.
